@@ -21,14 +21,18 @@ Users == {<<>>, <<"7">>, <<"8">>}
 Sels  == {"any", "signed", "roundrobin", "unsigned"}
 A(ip, text) == [ip |-> ip, text |-> text]
 Addrs == {A("a", "a"), A("b", "b"), A("c", "c"), A("c", "c2")}
-Xffs == {<<>>} \cup {<<x>> : x \in Addrs} \cup {<<x, y>> : x \in Addrs, y \in {A("p", "p")}} \cup {<<A("p", "p"), x>> : x \in Addrs}
+\* forwarded-for texts that are not bare IP literals (address with port, bracketed IPv6, a word): each is an address of
+\* its own - two different ones are different clients
+TextOnly == {A("u1", "u1"), A("u2", "u2"), A("v1", "v1"), A("v2", "v2"), A("w1", "w1"), A("w2", "w2")}
+Fwd == Addrs \cup TextOnly
+Xffs == {<<>>} \cup {<<x>> : x \in Fwd} \cup {<<x, y>> : x \in Fwd, y \in {A("p", "p")}} \cup {<<A("p", "p"), x>> : x \in Addrs}
 
 HostQs == [tokenAuth : BOOLEAN, sel : Sels, hosts : HostLists, user : Users, name : Names, port : Ports,
            tokHost : {Join(<<"H1">>, "PA"), Join(<<"H127", "7">>, "PA"), Join(<<"H6">>, "PA"), Join(<<"H1">>, "PB")},
            verifyIp : {TRUE}, tokAddr : {A("a", "a")}, xff : {<<>>}, peer : {A("a", "a")}]
 AddrQs == [tokenAuth : BOOLEAN, sel : {"roundrobin", "any"}, hosts : {<<E1>>}, user : {<<"7">>}, name : {<<"H1">>}, port : {"PA"},
            tokHost : {Join(<<"H1">>, "PA")},
-           verifyIp : BOOLEAN, tokAddr : Addrs, xff : Xffs, peer : Addrs]
+           verifyIp : BOOLEAN, tokAddr : Fwd, xff : Xffs, peer : Addrs]
 
 VARIABLE q
 Init == q \in (IF Mode = "host" THEN HostQs ELSE AddrQs)
